@@ -1,6 +1,7 @@
 package ecsim
 
 import (
+	"errors"
 	"bytes"
 	"fmt"
 	"os"
@@ -95,8 +96,13 @@ func genC07(tier string, seed uint64, idx int) *simkit.Plan {
 		keys = append(keys, k)
 	}
 	rng.Shuffle(len(keys), func(i, j int) { keys[i], keys[j] = keys[j], keys[i] })
+	emptyBlobs := rng.Chance(1, 6)
 	for i, k := range keys {
-		p.Add(simkit.St("w", rng.Uint64(), "key", k, "size", rng.Range(1, 40), "name", rng.Intn(2)*rng.Intn(6)))
+		sz := rng.Range(1, 40)
+		if emptyBlobs && rng.Chance(1, 4) {
+			sz = 0 // an empty payload: a live needle of size 0
+		}
+		p.Add(simkit.St("w", rng.Uint64(), "key", k, "size", sz, "name", rng.Intn(2)*rng.Intn(6), "empty", sz == 0))
 		if rng.Chance(1, 8) {
 			p.Add(simkit.St("w", rng.Uint64(), "key", keys[rng.Intn(i+1)], "size", rng.Range(1, 40)))
 		}
@@ -426,7 +432,7 @@ func execC07(r *simkit.Run) {
 		case "rebuild":
 			c.rebuild()
 		case "fresh":
-			c.fresh()
+			c.fresh(s)
 		case "toidx":
 			c.toidx()
 		}
@@ -785,12 +791,39 @@ func (c *c07) tmp() (dir, base string) {
 
 // fresh replays the journal into the sorted index as it was when the journal
 // was started (a copy of the index that never saw the in-place marks).
-func (c *c07) fresh() {
+func (c *c07) fresh(st *simkit.Step) {
 	r := c.r
 	dir, base := c.tmp()
 	defer os.RemoveAll(dir)
 	os.WriteFile(base+".ecx", c.jbase, 0644)
 	copyFile(c.base+".ecj", base+".ecj")
+	if r.Res.FaultConfig && st.Seed%3 == 0 {
+		// the k-th in-place mark of this rebuild fails with an I/O error (the exported MarkNeedleDeleted function
+		// variable is the seam): the rebuild must report it and keep the journal, and a second attempt finishes the job
+		k, calls := int(1+st.Seed/3%4), 0
+		orig := ec.MarkNeedleDeleted
+		ec.MarkNeedleDeleted = func(f *os.File, off int64) error {
+			calls++
+			if calls == k {
+				return errors.New("input/output error")
+			}
+			return orig(f, off)
+		}
+		err := ec.RebuildEcxFile(base)
+		ec.MarkNeedleDeleted = orig
+		if calls >= k {
+			r.Fault("mark-fails-during-rebuild")
+			r.Abs("fresh:mark-fails")
+			if err == nil {
+				r.Violate("rebuilt-index-differs", "rebuild-swallowed-io-error", "RebuildEcxFile reported success although marking journal entry %d failed", k)
+				return
+			}
+			if _, e := os.Stat(base + ".ecj"); e != nil {
+				r.Violate("journal-missing-key", "journal-removed-by-a-failed-rebuild", "RebuildEcxFile failed at journal entry %d (%v) and removed the journal: the deletions from that entry on are lost", k, scrub(err))
+				return
+			}
+		}
+	}
 	err := ec.RebuildEcxFile(base)
 	r.Probe("rebuild-from-unmarked-index-plus-journal")
 	r.NonTrivial()
@@ -830,8 +863,20 @@ func (c *c07) toidx() {
 		r.Violate("rebuilt-index-differs", "write-idx-error", "WriteIdxFileFromEcIndex: %v", scrub(err))
 		return
 	}
-	compareIdxLive(r, base+".idx", c.m.liveSet(), "write-idx-from-ec-index")
+	what := "write-idx-from-ec-index"
+	if c.misaligned() {
+		what = "journal-records-misaligned-after-torn-tail"
+	}
+	compareIdxLive(r, base+".idx", c.m.liveSet(), what)
 	r.Abs("toidx")
+}
+
+// idxKey: the recorded root cause keeps its bare key; everything else names path, entry size and symptom.
+func idxKey(what string, entrySize int, symptom string) string {
+	if what == "journal-records-misaligned-after-torn-tail" {
+		return what
+	}
+	return fmt.Sprintf("%s/entry-size=%d/%s", what, entrySize, symptom)
 }
 
 func compareIdxLive(r *simkit.Run, idxPath string, want map[uint64]ent, what string) bool {
@@ -849,13 +894,13 @@ func compareIdxLive(r *simkit.Run, idxPath string, want map[uint64]ent, what str
 	}
 	for _, k := range sortedEntKeys(want) {
 		if got[k] != want[k] {
-			r.Violate("rebuilt-index-differs", fmt.Sprintf("%s/entry-size=%d/live-needle-lost-or-changed", what, entrySize), "%s: live key %d is %v in the rebuilt index, want %v (%d live there, %d in the model)", what, k, got[k], want[k], len(got), len(want))
+			r.Violate("rebuilt-index-differs", idxKey(what, entrySize, "live-needle-lost-or-changed"), "%s: live key %d is %v in the rebuilt index, want %v (%d live there, %d in the model)", what, k, got[k], want[k], len(got), len(want))
 			return false
 		}
 	}
 	for _, k := range sortedEntKeys(got) {
 		if _, ok := want[k]; !ok {
-			r.Violate("rebuilt-index-differs", fmt.Sprintf("%s/entry-size=%d/deleted-needle-live", what, entrySize), "%s: key %d is live in the rebuilt index (%v) but deleted in the model", what, k, got[k])
+			r.Violate("rebuilt-index-differs", idxKey(what, entrySize, "deleted-needle-live"), "%s: key %d is live in the rebuilt index (%v) but deleted in the model", what, k, got[k])
 			return false
 		}
 	}
